@@ -210,10 +210,20 @@ def parse_model_tokens(line):
     """Model output (op 60) -> projections."""
     t = [int(x) for x in line.split()] if line else []
     wire, cbs, closed, rets = [], [], False, []
+    timers = []          # ("hold"|"ka", ns) arms and ("hold"|"ka", -1) stops, in order
+    est_at = None        # index into timers at the moment OnEstablished is called
     i = 0
     while i < len(t):
         k = t[i]
-        if k == 1:
+        if k == 5:
+            sub = t[i + 1]
+            if sub in (1, 2):
+                timers.append(("hold" if sub == 1 else "ka", t[i + 2]))
+                i += 3
+            else:
+                timers.append(("hold" if sub == 3 else "ka", -1))
+                i += 2
+        elif k == 1:
             ty, ln = t[i + 1], t[i + 2]
             wire.append((ty, bytes(t[i + 3:i + 3 + ln])))
             i += 3 + ln
@@ -231,6 +241,8 @@ def parse_model_tokens(line):
                 i = j
             elif sub == 2:
                 cbs.append(("OnEstablished",))
+                if est_at is None:
+                    est_at = len(timers)
                 i += 2
             elif sub == 3:
                 ln = t[i + 2]
@@ -254,7 +266,10 @@ def parse_model_tokens(line):
                 i += 3
         else:
             raise ValueError("bad token %r at %d in %s" % (k, i, line[:200]))
-    return {"wire": wire, "cbs": cbs, "closed": closed, "rets": rets}
+    pre = timers if est_at is None else timers[:est_at]
+    return {"wire": wire, "cbs": cbs, "closed": closed, "rets": rets,
+            "hold_arms": [ns for k, ns in timers if k == "hold" and ns >= 0],
+            "ka_arms_pre": [ns for k, ns in pre if k == "ka" and ns >= 0]}
 
 
 def ip_to_int(s):
@@ -292,8 +307,20 @@ def observe(res, conn="c1"):
             else:
                 rets.append((STATE_NUM[desired], (ec,)))
     closed = bool(cr and cr["eof"])
+    # timer operations (hook events t.hold / t.ka: duration in ns, -1 = stop), keep-alive arms up to Established
+    hold_arms, ka_pre, ka_all, seen_est = [], [], [], False
+    for e in res["events"] or []:
+        if e["kind"] == "f.enter" and len(e["args"]) >= 4 and e["args"][3] == "established":
+            seen_est = True
+        elif e["kind"] == "t.hold" and int(e["args"][1]) >= 0:
+            hold_arms.append(int(e["args"][1]))
+        elif e["kind"] == "t.ka" and int(e["args"][1]) >= 0:
+            ka_all.append(int(e["args"][1]))
+            if not seen_est:
+                ka_pre.append(int(e["args"][1]))
     return {"wire": wire, "cbs": cbs, "closed": closed, "rets": rets,
-            "garbage": cr["garbage"] if cr else "", "read_err": cr["read_err"] if cr else ""}
+            "garbage": cr["garbage"] if cr else "", "read_err": cr["read_err"] if cr else "",
+            "hold_arms": hold_arms, "ka_arms_pre": ka_pre, "ka_arms": ka_all}
 
 
 def dominant_of(local_id, remote_id, local_as, remote_as):
